@@ -617,6 +617,25 @@ fn run_history<Q: QueueBackend + 'static>(rng: &mut Rng, ctx: &mut Ctx, focus: F
                     ctx.violation(&format!("{}:wrong-error-returned:{}", p, uname), detail("result", format!("{:?} {:?}", code, exact), format!("{:?}", e)));
                     return;
                 }
+                // what the queries executed before the failing unit returned (and, for SYST:ERR? / *ESR? / event
+                // reads, removed from the device) must still be in the output buffer: an answer that is discarded
+                // after its destructive read is an item lost unread
+                if want_resp.len() > 1 {
+                    let prefix = &want_resp[..want_resp.len() - 1];
+                    let mut ok = resp.starts_with(prefix);
+                    if !ok && !alts.is_empty() {
+                        let mut alt_resp = want_resp.clone();
+                        for (pos, a, b) in alts.iter().rev() {
+                            alt_resp.splice(*pos..*pos + a.len(), b.iter().copied());
+                        }
+                        ok = resp.starts_with(&alt_resp[..alt_resp.len() - 1]);
+                    }
+                    ctx.count("messages.failed-after-earlier-answers");
+                    if !ok {
+                        ctx.violation(&format!("{}:answers-of-units-before-the-failing-unit-lost:{}", p, uname), detail("response of the units executed before the failure", show(prefix), show(&resp)));
+                        return;
+                    }
+                }
                 // documented wiring: exactly this error is queued, its class bit set
                 m.record_error(item_of(e));
                 ctx.count(&format!("messages.failed.{}", uname));
